@@ -23,7 +23,7 @@ def is_scoped_template(template_typenames: Sequence[str],
     """
     for idx, template in enumerate(template_typenames):
         if "::" in str_arg_typename and \
-            template in str_arg_typename.split("::"):
+            template == str_arg_typename.split("::")[0]:
             return template, idx
     return False, -1
 
@@ -77,9 +77,14 @@ def instantiate_type(
     if scoped_template:
         # Create a copy of the instantiation so we can modify it.
         instantiation = deepcopy(instantiations[scoped_idx])
-        # Replace the part of the template with the instantiation
-        instantiation.name = str_arg_typename.replace(scoped_template,
-                                                      instantiation.name)
+        # Replace the leading template parameter (and only it) with the
+        # instantiation, keeping the instantiation's own template arguments
+        # in front of the scoped name, e.g. T::Value -> ns::B<C>::Value.
+        scope = str_arg_typename.split("::")[1:]
+        instantiated = parser.Typename([instantiation.name],
+                                       instantiation.instantiations).to_cpp()
+        instantiation.name = "::".join([instantiated] + scope)
+        instantiation.instantiations = []
         return parser.Type(
             typename=instantiation,
             is_const=ctype.is_const,
